@@ -1,14 +1,17 @@
 (** C04 - parsing preserves CEL precedence, associativity and grouping.
-    Proved here: the round trip [parse (render tree) = tree] for every tree of the operator
-    grammar (identifiers, prefix runs of any length, * / %, + -, the seven relations, && / ||
-    chains of any length, ?:, explicit parentheses) rendered with minimal parentheses - at token
-    level, with the fuel [compile] itself uses (an explicit bound on the fuel each tree needs is
-    proved to fit under 16 * (tokens + 2)); the operand order of && / || chains; the cancellation of
-    prefix runs; that macros expand around their receiver and arguments.  Partial in this: the
-    postfix forms (select, index, calls), literals and collection literals are outside the
-    round-trip theorem and are covered by the correspondence run (every tree with up to 2
-    (thorough: 3) operators, random deeper ones, fully and minimally parenthesised), which also
-    checks on every operator tree that the real lexer's tokens are the rendering [raw]. *)
+    Proved here: the round trip [parse (render tree) = tree] for every surface tree -
+    identifiers, non-negative number literals, true / false / null, prefix runs of any length,
+    * / %, + -, the seven relations, && / || chains of any length, ?:, explicit parentheses,
+    field selection, indexing, member and global calls (of names that are not macros), list and
+    map literals - rendered with minimal parentheses: at token level with the fuel [compile]
+    itself uses (the parse holds for all sufficient fuel, more fuel never changes an answer,
+    and the parser's own fuel is never exhausted), and from source text; the operand order of
+    && / || chains; the cancellation of prefix runs; that macros expand around their receiver
+    and arguments.  Outside the round-trip theorem: negative literals (a token pair), string /
+    bytes / double literals (C12, C13), message literals and the optional-field syntax the
+    parser refuses; the correspondence run covers those (every tree with up to 2 (thorough: 3)
+    operators, random deeper ones, fully and minimally parenthesised) and checks on every tree
+    of the theorem's domain that the real lexer's tokens are the rendering [raw]. *)
 From Coq Require Import String Ascii.
 From Cel.Model Require Import Parser.
 From Cel.Model Require Import Surface.
@@ -102,6 +105,17 @@ Example C04_ex_roundtrip :
                             [SNot 0 (SId $"f")]) [SId $"g"]) (SId $"h") (SId $"i") in
   wf_st t /\ length (raw t) = 18%nat /\ parse_tokens (raw t) = CExpr (ast t).
 Proof. vm_compute. repeat split; discriminate. Qed.
+
+(** x.f(a + b, [1, {k: !c}])[i].g * 2 : postfix forms bind tighter than every operator *)
+Example C04_ex_postfix :
+  let t := SMul TStar
+             (SSel (SIdx (SMCall (SId $"x") $"f" [SAdd TPlus (SId $"a") (SId $"b");
+                                                   SLst [SLit (LInt 1); SMap [(SId $"k", SNot 0 (SId $"c"))]]])
+                         (SId $"i")) $"g")
+             (SLit (LInt 2)) in
+  wf_st t /\ ids_ok t /\ compile (text (raw t)) = CExpr (ast t) /\
+  compile $"x.f(a + b, [1, {k: !c}])[i].g * 2" = CExpr (ast t).
+Proof. vm_compute. repeat split; try discriminate; reflexivity. Qed.
 
 Print Assumptions C04_chain_order.
 Print Assumptions C04_chain_loops.
